@@ -392,7 +392,15 @@ func (x *Exec) store(st *State, a *Addr, v Val, pos token.Pos) {
 		if !ok {
 			x.unsupported(st, pos, "path store into non-term cell")
 		}
-		st.cells[a.Cell] = x.inject(st, old, a.Elem, a.Path, x.term(st, v, pos), pos)
+		nv := x.inject(st, old, a.Elem, a.Path, x.term(st, v, pos), pos)
+		// name the updated aggregate: successive field stores would otherwise nest the whole previous term once per field
+		if len(nv.S) > 200 {
+			c := st.Fresh(a.Cell.name, nv.Sort)
+			c.T = nv.T
+			st.Assume(Eq(c, nv))
+			nv = c
+		}
+		st.cells[a.Cell] = nv
 		return
 	}
 	x.checkNonNil(st, a.Ref, pos)
